@@ -40,10 +40,10 @@ PID = 'C16'
 # ----------------------------------------------------------------- budgets
 #            histories  layouts(cycles)  ops-per-gate  graphs models passdata workflows tasks arrays
 COUNTS = {
-    'quick': dict(hist=220, hist_steps=(3, 22), layout_cycles=2, layout_sample=260, flexrad=2,
-                  graphs=150, models=100, passdata=40, workflows=6, tasks=30, arrays=80, xproc=30),
-    'thorough': dict(hist=3000, hist_steps=(3, 40), layout_cycles=3, layout_sample=0, flexrad=4,
-                     graphs=2500, models=1500, passdata=500, workflows=40, tasks=300, arrays=1000, xproc=250),
+    'quick': dict(hist=300, hist_steps=(3, 22), layout_cycles=2, layout_sample=160, flexrad=2,
+                  graphs=150, models=100, passdata=40, workflows=6, tasks=30, arrays=80, xproc=40),
+    'thorough': dict(hist=4000, hist_steps=(3, 40), layout_cycles=3, layout_sample=0, flexrad=4,
+                     graphs=2500, models=1500, passdata=500, workflows=36, tasks=400, arrays=1000, xproc=300),
 }
 WORKERS = min(16, os.cpu_count() or 4)
 if os.environ.get('VERIF_WORKERS'):
@@ -1445,7 +1445,7 @@ def cross_process(run: core.Run, seed: int, n: int) -> None:
         items.append(('gate', r))
     for k in rtchk.flex_keys():
         for rx in FLEX_RADIXES[:3]:
-            items.append(('gate', [k, int(rng.integers(1 << 30)), rx]))
+            items.append(('gate', [k, int(rng.integers(1 << 30)), rx, 2]))
     for i in range(n):
         r2 = core.rng_for(seed, PID, 11, i)
         nq = int(r2.integers(1, 5))
@@ -1563,7 +1563,7 @@ def gate_items(seed: int, tier: str) -> list[Any]:
         i += 1
     for k in rtchk.flex_keys():
         for rx in FLEX_RADIXES[:COUNTS[tier]['flexrad'] * 2]:
-            items.append((seed, i, [k, 1000 + i, rx]))
+            items.append((seed, i, [k, 1000 + i, rx, 2]))
             i += 1
     return items
 
@@ -1693,27 +1693,24 @@ def do_replay(run: core.Run, path: str) -> int:
     g = w.get('group')
     seed = int(w.get('seed', run.seed))
     rtchk._init_catalogue()
-    if g == 'hist' and 'steps' in w:
-        out = Out('hist', seed, w.get('idx'))
+    if g in ('hist', 'layout') and isinstance(w.get('steps'), list):
+        # the materialised history is replayed call by call
+        out = Out(g, seed, w.get('idx'))
         c = rtchk.apply_steps(w['steps'])
-        circuit_checks(out, c, w['steps'], core.rng_for(seed, PID, 1, int(w.get('idx') or 0)), lambda: rtchk.apply_steps(w['steps']))
+        circuit_checks(
+            out, c, w['steps'], core.rng_for(seed, PID, 1 if g == 'hist' else 2, int(w.get('idx') or 0)),
+            lambda: rtchk.apply_steps(w['steps']),
+        )
         r = out.d
     elif g in GROUPS:
         tier = run.tier
         if g == 'hist':
             arg: Any = (seed, int(w['idx']), tier)
-        elif g == 'layout':
-            arg = next(it for it in layout_items(seed, 'thorough') if it[1] == int(w['idx']))
-            if 'steps' in w:
-                out = Out('layout', seed, w['idx'])
-                c = rtchk.apply_steps(w['steps'])
-                circuit_checks(out, c, w['steps'], core.rng_for(seed, PID, 2, int(w['idx'])), lambda: rtchk.apply_steps(w['steps']))
-                arg = None
         elif g == 'gate':
             arg = (seed, int(w['idx']), w['recipe'])
         else:
             arg = (seed, int(w['idx']))
-        r = GROUPS[g](arg) if arg is not None else out.d
+        r = GROUPS[g](arg)
     elif g == 'workflow':
         workflow_cases(run, seed, int(w['idx']) + 1)
         flush(run)
